@@ -21,6 +21,8 @@
 mod iface;
 mod socket;
 mod timer;
+#[cfg(libp2p_verif)]
+pub use self::iface::{VerifPacket, verif_build_query_response, verif_parse};
 
 use std::{
     cmp,
